@@ -425,7 +425,15 @@ func (e *Engine) CompileTemplate(name string) (*CompiledTemplate, error) {
 	}
 
 	// Compile the template
-	return CompileTemplate(template)
+	compiled, err := CompileTemplate(template)
+	if err != nil {
+		return nil, err
+	}
+
+	// The compiled template goes by the name it was asked for (a template
+	// registered as an object has no name of its own)
+	compiled.Name = name
+	return compiled, nil
 }
 
 // RegisterCompiledTemplate registers a compiled template with the engine
